@@ -31,6 +31,30 @@ CHECKS = {
  "C02": ("abstract interpretation of the client/manager subscription functions over symbolic message types (data-independence abstraction), exhaustive BFS of the abstract (client, manager) state space; plus a syntactic mutate-while-iterating rule",
          "Exhaustive over the abstract space: every reachable (client, manager) subscription state x every public operation x every argument list over {ALL, a, b[, c]} satisfies I1 agreement, I2 paused-not-delivered, I3 index consistency, I4 refusal under subscribe-all, I5 scoped restore. Transformers are read from the current source on every run; uses of message types other than ==/in abort the analysis.",
          "Sound for the set semantics under the data-independence argument (types only compared for equality/membership - enforced). Assumes in-order one-at-a-time processing of control frames (C05/C19). List-position effects inside an argument list are covered by interpreting lists with CPython index semantics up to length 3.", "DESIGN.md §2 C02"),
+ "C04": ("table agreement across sibling back ends (key sets, width/signedness through frozen target-language vocabularies and validators.py class constants), structural check of every field-walk loop, attribute-read agreement of sibling emitters, wiring of generate() loops",
+         "The native-type tables of the parser, its ctypes mapper and the four back ends agree on keys, width and signedness (157 comparisons); every struct/message generator walks <def>.fields once, in order, unfiltered; id/constant/hash emitters read the same attributes and every table is wired to its emitter; recorded size = sum of field sizes.",
+         "sizeof/offsetof as laid out by a real C compiler and JS/MATLAB runtime representation need compiling generated output (execution) and are not decided; stand-in: C04-W + C11 + C16-A.", "DESIGN.md §2 C04"),
+ "C09": ("MRO-resolved enumeration of validator classes; edge-filtered guard states (validate-before-write on every path, per write effect); reachability for atomicity; must-follow on the exceptional continuation of `yield`; who-may-write on the ContextVar; constant folding of the bounds table",
+         "Every write effect of every __set__/__setitem__ is reached only after validation of the same value, or with validation off, or via own-ctype/delegation; no write precedes a validation; validate_many quantifies over all elements (order statistics only after an all-int check); the disable block restores the flag on exceptional exit; single flag writer; bounds equal 2**bits arithmetic.",
+         "Read-back equality, nearest-float rounding and each numeric boundary are numerical results and not decided; ctypes' own slice-length/type checks are trusted.", "DESIGN.md §2 C09"),
+ "C10": ("structural rules: result-expression grammar of copy(); dominating-guard truth table in Message.from_json; ordered case-list agreement between _to_dict and _from_dict",
+         "Decides only the clauses with a code-shape core: copies are built exclusively with from_buffer_copy; the JSON data decode is dominated by version == 0 or version == local hash; encoder and decoder classify field types by the same ordered tests, encoder-only cases being int-list producers.",
+         "The headline clause - bytes -> dict/JSON -> bytes is the identity for every value - is round-trip equality over values and is NOT decided by static analysis.", "DESIGN.md §2 C10, §3"),
+ "C11": ("mutation scan of the field list in check_alignment, dominating guards of padding constructions, must-precede of validation before registration, guard facts at validate_msg_def's normal exits; thorough: independent natural-layout recomputation of every shipped definition",
+         "Decides the non-arithmetic clauses: padding only inserts self-built `char` fields and never reorders/resizes/drops user fields; every padding construction is dominated by auto_pad; every registered definition passed validate_msg_def, which rejects size > 65535 on every normal exit and runs check_alignment exactly under validate_alignment.",
+         "That every offset is a multiple of its alignment for every field sequence is numerical behaviour of a loop and is NOT decided; the thorough tier's layout recomputation validates shipped artefacts only.", "DESIGN.md §2 C11, §3"),
+ "C12": ("must-precede of check_duplicate_name / validator loops before every registry store (CFG), sibling agreement of namespace tuples, call-graph acceptance of indirect registrars, who-may-call parse_text, attribute-set agreement of __init__ and clear",
+         "Every store into a shared name table is preceded on every path by a duplicate-name check over all five tables; every id registry store by its whole-registry duplicate loop and range test; reserved ranges are inclusive and fully registered; a file is recorded (resolved path) before parsing and parse_text is only reachable through parse_file; registries are per instance and cleared on failure.",
+         "Symlink/case aliasing of import paths is filesystem semantics and not decided.", "DESIGN.md §2 C12"),
+ "C13": ("backward information-flow closure of the sha256 argument to its roots (must-include / must-exclude), constructor-argument check, slice/decoration check of every hash emission site, edge-filtered guard states for the version stamp",
+         "The hashed text depends on exactly name, id and the in-order field name/type pairs at all three hashing sites; the stored digest is that digest; every back end prints hash[:8]; send_message stamps header.version before the header is sent on every path but the documented legacy one; version aliases the reserved wire field.",
+         "Collision-freeness of the 32-bit prefix is not claimed; sha256 and insertion-ordered dicts trusted.", "DESIGN.md §2 C13"),
+ "C15": ("reference relation extracted from the front end vs emission order extracted from each generate() with frozen per-language eagerness; template lints of the JavaScript f-strings; return-annotation based branch type agreement; dispatch totality",
+         "Every eager cross-section reference points to an earlier section (6 recorded known findings for Python/C/MATLAB); JS aliases are callables in the namespace fields read, namespaces exist before use, arrays are built per element; get_ctype_cls branches all yield ctypes types; every per-type dispatch covers the four kinds and raises otherwise.",
+         "That generated text is accepted by CPython/gcc/node/MATLAB is execution of generated artefacts and not decided; the findings were confirmed once by running the real compiler (findings/c15_generated_outputs.py).", "DESIGN.md §2 C15"),
+ "C16": ("usage-context classification of every nondeterminism-source call in parser/compile/back ends; section mirroring check in parse_text; exhaustive artefact agreement between shipped YAML (data) and shipped generated module (AST) with independent constant evaluator, sha256 recomputation and natural-layout calculator",
+         "No time/random/pid/cwd/absolute-path/id()/hash()/set-order value can reach emitted text; every parsed section is mirrored into the combined YAML (repeatable `_RESERVED_` merged); core_defs.py agrees with core_defs.yaml + imports on every constant, alias, id, type_def, recomputed type_hash, descriptor sequence and natural size (445 comparisons, exhaustive over the shipped files; thorough adds tests/ and examples/ pairs: 3060).",
+         "Byte-identity of two real runs and the YAML emitter/loader round trip need execution and are not decided; black trusted deterministic.", "DESIGN.md §2 C16"),
 }
 
 NOT_YET = "check not built yet (build phase in progress)"
